@@ -6,3 +6,5 @@ import ZbossModel.Props.C14
 #print axioms Zboss.Host.C14_exclusive_any_schedule
 #print axioms Zboss.Host.C14_nonblocking_never_queues
 #print axioms Zboss.Host.C14_nonblocking_waits_only_for_the_link
+#print axioms Zboss.Host.C14_first_come_first_served
+#print axioms Zboss.Host.C14_queue_in_issue_order
